@@ -1,10 +1,14 @@
 """C46 -- the mfront inter-process lock provides mutual exclusion.
 Engine H: Gallina transition system of the named semaphore and of the processes using MFrontLock (C46Model.v); the
-invariant is proved by induction over every trace (any number of processes, any interleaving, exits at any point).
+invariants (holders <= 1; value + holders + killed holders = 1) are proved by induction over every trace (any number of
+processes, any interleaving, exit()/kill at any control point, inside a protected section included).
 Tie: the REAL mfront/src/MFrontLock.cxx is compiled into driver.cxx, its sem_* calls are logged by link-time wrappers
-(no source hook), forked processes run seeded histories, and every logged trace is fed to the acceptor extracted from
-the model; sem_getvalue at quiescent points must equal the model's value; the outcome (at most one process inside,
-value never above 1) is re-checked on the raw log independently of the model."""
+(no source hook), forked processes run seeded histories (ending by exit()/_exit()/uncaught exception, idle or inside a
+section with the real MFrontLockGuard alive), and every logged trace is fed to the acceptor extracted from the model;
+sem_getvalue after every phase must equal the model's value.  Independently of the model the raw log is checked for:
+at most one holder at any time, and the value left behind = 1 (minus the holders killed by _exit).
+The kind of code (destructor posts iff held = current; always = pinned, F13; never = b861cfc5d, lock lost) is read off
+the traces and selects the theorem file."""
 import os, threading
 from concurrent.futures import ThreadPoolExecutor
 from vlib import guarded_main
@@ -17,6 +21,11 @@ EXTRACT = """From Coq Require Import ExtrOcamlBasic.
 From C46 Require Import C46Spec C46Model.
 Extraction "c46_model.ml" step_fn init holders inside.
 """
+PROPS = {"release": "Properties_C46.v", "posts": "Properties_C46_pinned.v", "quiet": "Properties_C46_quiet.v"}
+KIND_TEXT = {"release": "~MFrontLock posts iff the lock is still held (current code)",
+             "posts": "~MFrontLock always posts (pinned code, defect F13)",
+             "quiet": "~MFrontLock never posts (commit b861cfc5d: the lock is lost when exit() is called inside a section)"}
+WATCHDOG_S = 10
 
 CANON = [
     ("canon-1run", "phase\nchild 1 200 0 exit\n"),
@@ -26,27 +35,40 @@ CANON = [
     ("canon-4concurrent", "phase\n" + "child 3 500 100 exit\n" * 4),
     ("canon-quick-then-3", "phase\nchild 2 100 0 quick\nphase\n" + "child 2 1000 0 exit\n" * 3),
     ("canon-exit-inside", "phase\nchild 1 100 0 exit\nchild 1 100 0 exit\nphase\nchild 2 100 0 exitcs\n"),
+    ("canon-exit-inside-then-run", "phase\nchild 1 100 0 exitcs\nphase\nchild 1 100 0 exit\n"),
+    ("canon-throw-inside-then-2", "phase\nchild 2 100 0 throwcs\nphase\nchild 2 1000 100 exit\nchild 2 1000 100 exit\n"),
+    ("canon-exits-inside-concurrent", "phase\nchild 1 500 0 exitheld\nchild 2 500 100 exit\nchild 2 500 100 exitcs\n"
+                                      "child 1 200 0 throwcs\nchild 3 200 100 quick\nphase\nchild 1 100 0 exit\n"),
     ("canon-crash-inside", "phase\nchild 1 100 0 quick\nchild 2 100 50 quick\nphase\nchild 1 100 0 crashcs\n"),
 ]
+CANON_NAMES = set(n for n, _ in CANON)
 
 
-def gen_scenario(rng, kmax):
+def gen_scenario(rng, kmax, exits_anywhere):
+    """exits_anywhere: processes may call exit() / throw inside a section in any phase (right for code that releases at
+    exit; on code that does not, every later process would block until the watchdog: then such an end is only generated
+    alone in a last phase).  _exit inside a section (no code can repair that) is always alone in a last phase."""
+    ends = ["exit", "exit", "exit", "quick"] + (["exitcs", "throwcs", "exitheld"] if exits_anywhere else [])
     txt = ""
     for _ in range(rng.randint(1, 4)):
         txt += "phase\n"
         for _ in range(rng.randint(1, kmax)):
             txt += "child %d %d %d %s\n" % (rng.choice([0, 1, 1, 2, 3]), rng.choice([0, 100, 500, 2000]),
-                                           rng.choice([0, 0, 100, 1000]), rng.choice(["exit", "exit", "exit", "quick"]))
+                                           rng.choice([0, 0, 100, 1000]), rng.choice(ends))
     if rng.random() < 0.3:  # a process ending inside its section, alone in a last phase (the lock may stay taken)
-        txt += "phase\nchild %d %d 0 %s\n" % (rng.randint(1, 2), rng.choice([0, 200]), rng.choice(["exitcs", "crashcs"]))
+        txt += "phase\nchild %d %d 0 %s\n" % (rng.randint(1, 2), rng.choice([0, 200]),
+                                              rng.choice(["exitcs", "throwcs", "crashcs"]))
     return txt
 
 
 def translate(raw):
-    """raw log of the driver -> (model event lines, number of destructor posts, facts for the independent check)"""
-    ev, window, exited = [], set(), set()
-    inside, max_inside, worst = set(), 0, None
-    nxp, probes, unexplained = 0, [], []
+    """raw log of the driver -> (model event lines, facts for the classification and for the independent check)"""
+    ev = []
+    opened, holding, window, done = set(), set(), set(), set()
+    exits = []            # one per process ended through exit(): {"p", "opened", "held", "posted"}
+    surplus = leaked = killed_holding = 0
+    max_holders, worst = 0, None
+    probes, anomalies, hung = [], [], []
     for i, l in enumerate(raw):
         k, p, v = l.split()
         p, v = int(p), int(v)
@@ -54,47 +76,84 @@ def translate(raw):
             ev.append("S")
         elif k == "OPEN":
             ev.append("O %d" % p)
+            opened.add(p)
         elif k == "WAIT":
             ev.append("W %d" % p)
+            holding.add(p)
+            if len(holding) > max_holders:
+                max_holders, worst = len(holding), (i, sorted(holding))
+            if len(holding) > 1:
+                anomalies.append(("two-holders", len(holding) <= 1 + surplus,
+                                  "log event %d: processes %s hold the lock together (sem_wait returned for each, none has posted)" % (i, sorted(holding))))
         elif k == "ENTER":
             ev.append("E %d" % p)
-            inside.add(p)
-            if len(inside) > max_inside:
-                max_inside, worst = len(inside), (i, sorted(inside))
-            if len(inside) > 1 + nxp:
-                unexplained.append("event %d: processes %s inside together after %d destructor posts" % (i, sorted(inside), nxp))
         elif k == "LEAVE":
             ev.append("L %d" % p)
-            inside.discard(p)
         elif k == "POST":
-            if p in window:
-                ev.append("XP %d" % p)
-                exited.add(p)
-                nxp += 1
+            if p in window:  # issued by the static destructor
+                ev.append("X %d 1" % p)
+                if p in done:
+                    pass  # second destructor post: the acceptor rejects it
+                else:
+                    held = p in holding
+                    exits.append({"p": p, "opened": p in opened, "held": held, "posted": True})
+                    if not held:
+                        surplus += 1
+                    done.add(p)
+                holding.discard(p)
             else:
                 ev.append("P %d" % p)
+                holding.discard(p)
         elif k == "CLOSE":
             pass  # no effect on the value of the semaphore
         elif k == "EXIT_BEGIN":
             window.add(p)
-            inside.discard(p)
         elif k == "EXIT_END":
-            if p not in exited:
-                ev.append("XQ %d" % p)
-                exited.add(p)
-            inside.discard(p)
-        elif k == "QUICK":
-            ev.append("XQ %d" % p)
-            exited.add(p)
-            inside.discard(p)
+            if p not in done:
+                ev.append("X %d 0" % p)
+                held = p in holding
+                exits.append({"p": p, "opened": p in opened, "held": held, "posted": False})
+                if held:
+                    leaked += 1
+                done.add(p)
+            holding.discard(p)
+        elif k in ("QUICK", "HUNG"):
+            ev.append("K %d" % p)
+            if p in holding:
+                killed_holding += 1
+            holding.discard(p)
+            done.add(p)
+            if k == "HUNG":
+                hung.append(p)
         elif k == "PROBE":
             ev.append("Q %d" % v)
             probes.append(v)
-            if v > 1 + nxp:
-                unexplained.append("event %d: semaphore value %d after %d destructor posts" % (i, v, nxp))
+            # independent statement: once every process of the phase has ended, the semaphore (if any process ever
+            # opened it) is worth the one permit it was created with, minus the holders that were killed
+            expect = (1 - killed_holding) if opened else -1
+            if v != expect:
+                what = "value-drift" if v > expect else "lock-lost"
+                anomalies.append((what, v - expect == surplus - leaked,
+                                  "log event %d: sem_getvalue = %d after every process of the phase has ended, expected %d "
+                                  "(%d destructor posts by processes not holding, %d exit() while holding without post, %d holders killed by _exit)" % (
+                                      i, v, expect, surplus, leaked, killed_holding)))
         else:
             ev.append("? " + l)
-    return ev, nxp, {"max_inside": max_inside, "worst": worst, "probes": probes, "unexplained": unexplained}
+    return ev, {"exits": exits, "surplus": surplus, "leaked": leaked, "killed_holding": killed_holding,
+                "max_holders": max_holders, "worst": worst, "probes": probes, "anomalies": anomalies, "hung": hung}
+
+
+def classify(all_facts):
+    ex = [e for f in all_facts for e in f["exits"]]
+    seen = {"surplus": any(e["posted"] and not e["held"] for e in ex),
+            "leak": any(e["held"] and not e["posted"] for e in ex),
+            "release": any(e["held"] and e["posted"] for e in ex),
+            "idle_quiet": any(e["opened"] and not e["held"] and not e["posted"] for e in ex)}
+    if seen["surplus"] and not seen["leak"]:
+        return "posts", seen
+    if seen["leak"] and not seen["surplus"]:
+        return "quiet", seen
+    return "release", seen
 
 
 def main(c):
@@ -106,52 +165,69 @@ def main(c):
               "the log order argument stated at the top of driver.cxx",
               "POSIX named-semaphore semantics as written in C46Model.v (sem_open O_CREAT creates with 1 only if absent; "
               "sem_wait returns only by taking one permit; sem_post adds one; the value persists; sem_close leaves it)",
+              "exit() runs the static destructors of the process and does not unwind the stack; _exit runs nothing (ISO C++ / POSIX)",
               "python translation of the raw log to model events (props/C46/check.py translate)")
-    # ---- scenarios
-    if c.replay:
-        scen = [(c.replay["replay"].get("scenario_name", "replay"), c.replay["replay"]["scenario"])]
-    else:
-        scen = list(CANON)
-        n = c.pick(30, 400)
-        kmax = c.pick(5, 12)
-        for i in range(n):
-            scen.append(("rnd-%d" % i, gen_scenario(c.rng, kmax)))
     base_uid = 1000000000 + (os.getpid() % 100000) * 10000
     lock = threading.Lock()
-    results = {}
+    scen, results = [], {}
 
-    def run_one(ix):
-        name, txt = scen[ix]
-        uid = base_uid + ix
-        try:
-            rc, out, err = c.run([exe, str(uid)], input=txt, timeout=300)
-        finally:
+    def run_batch(batch):
+        first = len(scen)
+        scen.extend(batch)
+
+        def run_one(ix):
+            name, txt = scen[ix]
+            uid = base_uid + ix
             try:
-                os.unlink("/dev/shm/sem.mfront-%d" % uid)
-            except OSError:
-                pass
-        with lock:
-            results[ix] = (rc, out.split("\n") if out else [], err)
+                rc, out, err = c.run([exe, str(uid), str(WATCHDOG_S)], input=txt, timeout=300)
+            finally:
+                try:
+                    os.unlink("/dev/shm/sem.mfront-%d" % uid)
+                except OSError:
+                    pass
+            with lock:
+                results[ix] = (rc, out.split("\n") if out else [], err)
 
-    with ThreadPoolExecutor(max_workers=4) as ex:
-        list(ex.map(run_one, range(len(scen))))
-    c.log("%d scenarios run on the real code" % len(scen))
-    # ---- translate, decide which model the code is, run the acceptor
+        with ThreadPoolExecutor(max_workers=4) as ex:
+            list(ex.map(run_one, range(first, len(scen))))
+
     trans = {}
-    any_xp = False
-    for ix in range(len(scen)):
-        rc, raw, err = results[ix]
-        raw = [l for l in raw if l.strip()]
-        if rc not in (0, 5, 7) or not raw:
-            c.report("driver:" + scen[ix][0], "driver failed (rc=%d) on scenario %s: %s" % (rc, scen[ix][0], err[-300:]),
-                     {"scenario_name": scen[ix][0], "scenario": scen[ix][1], "stderr": err[-2000:]}, False)
-            continue
-        ev, nxp, facts = translate(raw)
-        trans[ix] = (ev, nxp, facts, rc, raw)
-        any_xp = any_xp or nxp > 0
-    kind = "posts" if any_xp else "quiet"
+
+    def digest(first):
+        for ix in range(first, len(scen)):
+            rc, raw, err = results[ix]
+            raw = [l for l in raw if l.strip()]
+            if rc not in (0, 5, 7) or not raw:
+                c.report("driver:" + scen[ix][0], "driver failed (rc=%d) on scenario %s: %s" % (rc, scen[ix][0], err[-300:]),
+                         {"scenario_name": scen[ix][0], "scenario": scen[ix][1], "stderr": err[-2000:]}, False)
+                continue
+            ev, facts = translate(raw)
+            trans[ix] = (ev, facts, rc, raw)
+
+    # ---- the fixed histories first: they tell which kind of code this is
+    run_batch(list(CANON))
+    digest(0)
+    kind0, _ = classify([t[1] for t in trans.values()])
+    batch = []
+    if c.replay:
+        nm = c.replay["replay"].get("scenario_name", "replay")
+        if nm not in CANON_NAMES:
+            batch.append((nm, c.replay["replay"]["scenario"]))
+    else:
+        kmax = c.pick(5, 12)
+        for i in range(c.pick(30, 400)):
+            batch.append(("rnd-%d" % i, gen_scenario(c.rng, kmax, kind0 == "release")))
+    n0 = len(scen)
+    run_batch(batch)
+    digest(n0)
+    c.log("%d scenarios run on the real code" % len(scen))
+    kind, seen = classify([t[1] for t in trans.values()])
+    if kind == "release" and not (seen["release"] and seen["idle_quiet"]):
+        c.report("tie:kind-not-observed", "the traces do not show both an exit() while holding followed by a destructor post and an "
+                 "exit() while idle without one (observed: %s): the kind of code cannot be read off the traces" % seen, {"seen": seen}, False)
+    # ---- run the acceptor
     text = ""
-    for ix, (ev, nxp, facts, rc, raw) in trans.items():
+    for ix, (ev, facts, rc, raw) in trans.items():
         text += "T %d %s\n%s\nEND\n" % (ix, kind, "\n".join(ev))
     rc, out, err = c.run([acc], input=text, timeout=600)
     verdicts = {}
@@ -159,58 +235,82 @@ def main(c):
         t = l.split(" ", 2)
         if len(t) >= 2 and t[0] in ("ACCEPT", "REJECT"):
             verdicts[int(t[1])] = (t[0], t[2] if len(t) > 2 else "")
-    accepted = 0
-    drift_seen = two_seen = 0
-    hung = 0
-    for ix, (ev, nxp, facts, drc, raw) in trans.items():
+    accepted = final_one = exits_holding = exits_idle = kills_holding = 0
+    seen_anom = {"two-holders": 0, "value-drift": 0, "lock-lost": 0, "hung": 0}
+    extra_reports = 0
+    for ix, (ev, facts, drc, raw) in trans.items():
         name, txt = scen[ix]
-        nproc = sum(1 for e in ev if e == "S")
         conc = any(len([l for l in ph.split("\n") if l.startswith("child") and not l.startswith("child 0")]) >= 2
                    for ph in txt.split("phase\n"))
         c.count(1, txt, conc or txt.count("phase") >= 2)
-        if ix % 9 == 1:
-            c.sample({"scenario": name, "text": txt, "events": len(ev), "model_events_head": ev[:24],
-                      "probes": facts["probes"], "max_inside": facts["max_inside"], "verdict": verdicts.get(ix, ("?",))[0]})
+        exits_holding += sum(1 for e in facts["exits"] if e["held"])
+        exits_idle += sum(1 for e in facts["exits"] if e["opened"] and not e["held"])
+        kills_holding += facts["killed_holding"]
+        if facts["probes"] and facts["probes"][-1] == 1:
+            final_one += 1
         v = verdicts.get(ix)
+        if ix % 7 == 0:
+            c.sample({"scenario": name, "text": txt, "events": len(ev), "model_events_head": ev[:24],
+                      "probes": facts["probes"], "max_holders": facts["max_holders"],
+                      "exits": facts["exits"][:6], "verdict": " ".join(v) if v else "?"})
         rep = {"scenario_name": name, "scenario": txt, "model_kind": kind, "raw_log": raw[:400], "model_events": ev[:400],
                "how": "props/C46/driver <private euid> < scenario ; log -> acceptor extracted from C46Model.v"}
         if v is None:
             c.report("acceptor:" + name, "acceptor gave no verdict on scenario %s: %s" % (name, err[-300:]), rep, False)
             continue
         if v[0] == "REJECT":
-            c.report("reject:" + name, "trace of the real MFrontLock.cxx on scenario %s is not a run of the model (%s code): %s" % (
-                name, kind, v[1]), rep, True)
+            c.report("reject:" + name, "trace of the real MFrontLock.cxx on scenario %s is not a run of the model (%s): %s" % (
+                name, KIND_TEXT[kind], v[1]), rep, True)
         else:
             accepted += 1
-        if drc == 7:
-            hung += 1
-            c.notes.append("scenario %s: children still blocked after 20 s were killed by the watchdog (no verdict drawn from that)" % name)
-        # independent statement of the property on the raw log
-        for u in facts["unexplained"]:
-            c.report("outcome:" + name, "scenario %s: %s (not explained by destructor posts)" % (name, u), rep, True)
-            break
-        if facts["max_inside"] > 1 and not facts["unexplained"]:
-            two_seen += 1
-            if name == "canon-1run-then-2":
-                c.report("F13:two-holders", "after one complete run that took the lock, two processes are inside lock-protected sections "
-                         "together (log event %s, processes %s): ~MFrontLock posts the semaphore once more than it waited" % facts["worst"], rep, True)
-        if any(p > 1 for p in facts["probes"]) and not facts["unexplained"]:
-            drift_seen += 1
-            if name == "canon-1run":
+        if facts["hung"]:
+            seen_anom["hung"] += 1
+            c.notes.append("scenario %s: processes %s still blocked after %d s were killed by the watchdog" % (name, facts["hung"], WATCHDOG_S))
+        # ---- independent statement of the property on the raw log
+        kinds_here = set()
+        for (what, explained, msg) in facts["anomalies"]:
+            if what in kinds_here:
+                continue
+            kinds_here.add(what)
+            seen_anom[what] += 1
+            if not explained:
+                c.report("outcome:" + name, "scenario %s: %s (not explained by what the destructors were seen to do)" % (name, msg), rep, True)
+            elif what == "value-drift" and name == "canon-1run":
                 c.report("F13:value-drift", "after one complete run that took the lock once, sem_getvalue(/mfront-<euid>) = %s > 1 = value at creation: "
-                         "~MFrontLock::~MFrontLock calls sem_post" % facts["probes"], rep, True)
-            if name == "canon-8runs":
-                c.notes.append("semaphore values after 1..8 sequential runs: %s" % facts["probes"])
+                         "MFrontLock::~MFrontLock calls sem_post although the lock is not held" % facts["probes"], rep, True)
+            elif what == "two-holders" and name == "canon-1run-then-2":
+                c.report("F13:two-holders", "after one complete run that took the lock, two processes hold the lock together "
+                         "(log event %s, processes %s): ~MFrontLock posts the semaphore once more than it waited" % facts["worst"], rep, True)
+            elif what == "lock-lost" and name == "canon-exit-inside":
+                c.report("leak:exit-while-holding", "a process calls exit() inside a MFrontLockGuard-protected section (what mfront's terminate "
+                         "handler does on an uncaught exception): ~MFrontLock does not release the lock, sem_getvalue(/mfront-<euid>) = %s "
+                         "after every process has ended (expected 1): the lock is lost, every later mfront run blocks in sem_wait" % facts["probes"][-1], rep, True)
+            elif name not in ("canon-8runs", "canon-exit-inside-then-run") and extra_reports < 3:
+                extra_reports += 1
+                c.report("%s:%s" % (what, name), "scenario %s: %s" % (name, msg), rep, True)
+        if name == "canon-8runs" and "value-drift" in kinds_here:
+            c.notes.append("semaphore values after 1..8 sequential runs: %s" % facts["probes"])
+        if name == "canon-exit-inside-then-run" and facts["hung"] and facts["leaked"]:
+            c.report("leak:later-run-blocked", "process 0 called exit() inside a protected section without the lock being released "
+                     "(value %s afterwards); the next run (process %s) was still blocked in sem_wait after %d s" % (
+                         facts["probes"][:1], facts["hung"], WATCHDOG_S), rep, True)
     c.coverage["traces_validated_against_impl"] = accepted
-    c.coverage["rule"] = ("8 fixed histories + seeded random histories: 1-4 phases of 1..%d concurrent processes, each 0-3 lock/unlock rounds "
-                          "with holds 0-2 ms, ending by exit() / _exit() / exit() or _exit() inside the section; non-trivial = at least two "
-                          "lock-taking processes run concurrently or the history has at least two phases; distinct = distinct scenario text" % c.pick(5, 12))
-    c.notes.append("code classified as model kind '%s' (%s); scenarios with value drift: %d, with two processes inside: %d" % (
-        kind, "a destructor post was logged" if any_xp else "no destructor post in any trace", drift_seen, two_seen))
+    c.coverage["rule"] = ("%d fixed histories + seeded random histories: 1-4 phases of 1..%d concurrent processes, each 0-3 lock/unlock rounds "
+                          "with holds 0-2 ms, ending by exit() or _exit() when idle, or inside the section with the real MFrontLockGuard alive by "
+                          "exit(), exit() before the section marker, an uncaught exception (terminate handler calling exit(), as mfront's) or "
+                          "_exit(); after every phase sem_getvalue must be 1 minus the holders killed by _exit; non-trivial = at least two "
+                          "lock-taking processes run concurrently or the history has at least two phases; distinct = distinct scenario text" % (
+                              len(CANON), c.pick(5, 12)))
+    c.notes.append("code classified as model kind '%s': %s; observed over all traces: %s" % (kind, KIND_TEXT[kind], seen))
+    c.notes.append("processes that called exit() while holding the lock: %d, while idle (lock object alive): %d; holders killed by _exit: %d; "
+                   "scenarios leaving sem_getvalue = 1 behind: %d of %d (on code that conserves the permit the others are: no lock object at all, or a holder killed by _exit)" % (
+                       exits_holding, exits_idle, kills_holding, final_one, len(trans)))
+    c.notes.append("scenarios with two holders: %d, with value drift: %d, with the lock lost: %d, with processes killed by the watchdog: %d" % (
+        seen_anom["two-holders"], seen_anom["value-drift"], seen_anom["lock-lost"], seen_anom["hung"]))
     c.notes.append("no source hook needed: observation by link-time wrapping of the libc calls made by MFrontLock.cxx; private semaphore name through wrapped geteuid")
-    c.log("traces judged: %d accepted as %s-destructor code" % (accepted, kind))
+    c.log("traces judged: %d of %d accepted as '%s' code (%s)" % (accepted, len(trans), kind, KIND_TEXT[kind]))
     # ---- Coq
-    files = MODEL + ["C46Proofs.v", "Properties_C46.v"] + (["Properties_C46_pinned.v"] if any_xp else [])
+    files = MODEL + ["C46Proofs.v", "Properties_C46_acceptor.v", PROPS[kind]]
     res = c.coq(files, timeout=600)
     if not res.ok:
         c.coq_failures(res)
